@@ -11,11 +11,11 @@ WEIGHTS = dict(SetPlatform=10, SetPortNr=1, SetProtocolNr=1, Resequence=1, Group
 def run(tier, seed):
     rng = random.Random(seed * 179424673 + 2)
     mcs = [core.mc("MC_Acl", "MC_Acl" if tier == "quick" else "MC_Acl_4")]
-    n = 1500 if tier == "quick" else 12000
+    n = 1000 if tier == "quick" else 12000
     jobs = [aclhist.make_history(rng, t, WEIGHTS, nops=rng.randint(2, 6)) for t in range(1, n + 1)]
     aclhist.fill_permutations(rng, jobs)
     res = aclhist.run_histories("C02", jobs, tier, mcs, "operation mix dominated by platform changes in both directions (there, back, there again), interleaved with switches, resequencing, grouping")
-    ol, ojobs, oevents, ovstats = c06.object_level(random.Random(seed * 7 + 1), 5000 if tier == "quick" else 60000, "C02.")
+    ol, ojobs, oevents, ovstats = c06.object_level(random.Random(seed * 7 + 1), 2500 if tier == "quick" else 60000, "C02.")
     res["verdicts"] += ol
     cov = res["coverage"]
     cov["traces_validated_against_impl"] += len(ojobs)
